@@ -217,6 +217,8 @@ def main(run: core.Run) -> None:
             for op in claims.claim_ops(root):
                 if op[0] != 'claimseq1':
                     after_claims.append({'text': t, 'mode': mode, 'pre': [op]})
+    copies += [{'text': c['text'], 'mode': m} for c in docexp.class_cases(1) for m in (True, False)]
+    edits += [dict(c, edits='models') for c in docexp.class_cases(1)]
     run.run_cases(run_case, copies, 'copies of every model', chunk=100)
     run.run_cases(run_case, after_claims, 'copies after one claim/unclaim call', chunk=100)
     run.run_cases(run_case, edits, 'independence under edits', chunk=1)
